@@ -17,6 +17,7 @@ EXT = {"python": "py", "javascript": "js", "java": "java", "c": "c", "php": "php
 
 
 FULL_C_LANG = "javascript"
+NEW_KINDS = {"cfor-noupd", "switch-dm"}
 TESTED = {"if", "if-else", "while", "while-else", "cfor", "cfor-noupd", "dowhile"}
 CLASS_OPS = ("class_decl", "interface_decl", "record_decl", "enum_decl", "struct_decl")
 
@@ -228,7 +229,9 @@ def make_batches(quick):
                 continue
             pair = (feats & skel.C_ONLY and feats & {"break", "continue", "return"}
                     and feats <= skel.C_ONLY | {"break", "continue", "return", "if", "while"}
-                    and ("switch" not in feats or "continue" in feats))
+                    and (not feats & {"switch", "switch-dm"} or "continue" in feats))
+            if quick and pair and feats & NEW_KINDS and not feats <= NEW_KINDS | {"break", "continue", "return", "if"}:
+                pair = False    # quick: the newer kinds (for without update, default label in the middle) pair with `if` only
             if lang != "python" and nc == 2 and not pair and (quick or lang != FULL_C_LANG):
                 continue        # C-family languages get all 1-compound skeletons and the loop/switch x jump pairs; thorough adds
                                 # every 2-compound skeleton for one of them (the CFG builder is shared, the frontends differ in
